@@ -105,3 +105,21 @@ Example c02_example_self_only :
   | _ => False
   end.
 Proof. vm_compute. exact I. Qed.
+
+(* ---- extended semantics (Model/FactoryX.v) --------------------------------------------------------------------
+   Callbacks that re-enter the container (an Init that looks components up, any names, cycles through the
+   component in creation included) and post-processors that short-circuit instantiation do not endanger
+   termination: a start of the extended model never exhausts the model's fuel either.  The bound is the same
+   one: a nested call finds a cache entry, short-circuits without recursion, or caches a defined name first. *)
+From IocVerif Require Import Model.FactoryTrace Model.FactoryX Proofs.FactoryXProofs.
+
+Theorem c02_terminates_extended : forall vt s x, nofuel (snd (run_xt vt s x)).
+Proof. exact run_xt_terminates. Qed.
+
+(* non-vacuity: a component whose Init looks itself up and the component that is creating it *)
+Example c02_example_reentrant :
+  match snd (run_xt repaired (mkScn ex_pop2s [] false None []) (mkX [] [(5, [5; 6]); (6, [5; 7; 6])])) with
+  | Ok st => field_of st 5 100 = [VOrig 5] /\ field_of st 6 101 = [VOrig 7]
+  | Fail _ _ => False
+  end.
+Proof. vm_compute. split; reflexivity. Qed.
